@@ -45,6 +45,8 @@ theorem DefSafeL_takeRest : ∀ (fs : BL), DefSafeL (takeRestAll fs) ↔ DefSafe
   | .cons b _ r => by simp only [takeRestAll, DefSafeL]; rw [DefSafe_takeRest b, DefSafeL_takeRest r]
 end
 
+theorem isDict_takeRest (b : B) : (takeRest b).isDict = b.isDict := by cases b <;> rfl
+
 mutual
 theorem Safe_takeRest : ∀ (b : B), Safe (takeRest b) ↔ Safe b
   | .null _ _ => by simp [takeRest, Safe]
@@ -59,7 +61,8 @@ theorem Safe_takeRest : ∀ (b : B), Safe (takeRest b) ↔ Safe b
   | .map _ _ _ _ ks vs => by simp only [takeRest, Safe]; rw [Safe_takeRest ks, Safe_takeRest vs]
   | .struct _ _ v fs _ _ _ => by
     simp only [takeRest, Safe, Option.isSome_map]; rw [SafeL_takeRest fs, DefSafeL_takeRest fs]
-  | .dictionary _ idx vals _ => by simp only [takeRest, Safe]; rw [Safe_takeRest idx, Safe_takeRest vals]
+  | .dictionary _ idx vals _ => by
+    simp only [takeRest, Safe]; rw [Safe_takeRest idx, Safe_takeRest vals, isDict_takeRest idx]
   | .union _ fs _ _ _ => by simp only [takeRest, Safe]; exact SafeL_takeRest fs
 theorem SafeL_takeRest : ∀ (fs : BL), SafeL (takeRestAll fs) ↔ SafeL fs
   | .nil => by simp [takeRestAll, SafeL]
@@ -419,7 +422,7 @@ theorem pushNone_appends : ∀ (b b' : B), WFB b → Safe b → pushNone b = .ok
     have hw' := hwf
     simp only [WFB] at hw'
     simp only [Safe] at hsafe
-    obtain ⟨hidx, hdec⟩ := pushNone_appends idx idx' hw'.1 hsafe.1 ((ctx_ok _ _ _).1 h1)
+    obtain ⟨hidx, hdec⟩ := pushNone_appends idx idx' hw'.1 hsafe.2.1 ((ctx_ok _ _ _).1 h1)
     have := dict_append hwf [.null] [] [] hidx hw'.2.1 hdec (by simp) (by simpa using hw'.2.2.1) rfl (by
       intro k' hk' j hj
       simp at hk'; subst hk'; cases hj)
@@ -446,16 +449,16 @@ theorem convLeaf_int {ext : Ext} {k : LeafKind} {t : IntTy} {v val j : Int}
     | (cases hj; split at h <;> first | exact e1 h | exact tryInto_ok h | cases h)
 
 /-- the row a scalar call appends (and, for an integer call, that an integer row shows exactly that integer) -/
-theorem pushScalar_appends (ext : Ext) : ∀ (b : B) (x : SVal) (b' : B), WFB b → pushScalar ext b x = .ok b' →
-    WFB b' ∧ ∃ lv, dec b' = dec b ++ [lv] ∧ (∀ t v j, x = .int t v → lv = .int j → j = v)
-  | .null p len, x, b', _, h => by
+theorem pushScalar_appends (ext : Ext) : ∀ (b : B) (x : SVal) (b' : B), WFB b → Safe b → pushScalar ext b x = .ok b' →
+    WFB b' ∧ ∃ lv, dec b' = dec b ++ [lv] ∧ (∀ t v j, b.isDict = false → x = .int t v → lv = .int j → j = v)
+  | .null p len, x, b', _, _, h => by
     unfold pushScalar at h
     split at h
     · cases h
-      exact ⟨by simp [WFB], .null, null_step p len 1, by intro t v j hx; cases hx⟩
+      exact ⟨by simp [WFB], .null, null_step p len 1, by intro t v j _ hx; cases hx⟩
     · simp [notSupported, fail] at h
-  | .unknownVariant p, x, b', _, h => by simp [pushScalar, fail] at h
-  | .leaf p k v vals, x, b', hwf, h => by
+  | .unknownVariant p, x, b', _, _, h => by simp [pushScalar, fail] at h
+  | .leaf p k v vals, x, b', hwf, _, h => by
     simp only [pushScalar] at h
     obtain ⟨val, hc, h2⟩ := (bind_ok _ _ _).1 h
     obtain ⟨v', h3, h4⟩ := (bind_ok _ _ _).1 h2
@@ -465,10 +468,10 @@ theorem pushScalar_appends (ext : Ext) : ∀ (b : B) (x : SVal) (b' : B), WFB b 
     obtain ⟨g1, g2⟩ := leaf_step hwf true val
     rw [rowOf_true] at g2
     refine ⟨g1, _, g2, ?_⟩
-    intro t w j hx hj
+    intro t w j _ hx hj
     subst hx
     exact convLeaf_int hc hj
-  | .bytes p ty v offs data, x, b', hwf, h => by
+  | .bytes p ty v offs data, x, b', hwf, _, h => by
     simp only [pushScalar] at h
     obtain ⟨bs, _, h2⟩ := (bind_ok _ _ _).1 h
     obtain ⟨v', h3, h4⟩ := (bind_ok _ _ _).1 h2
@@ -484,10 +487,10 @@ theorem pushScalar_appends (ext : Ext) : ∀ (b : B) (x : SVal) (b' : B), WFB b 
     obtain ⟨g1, g2⟩ := bytes_step hwf true bs
     rw [rowOf_true] at g2
     refine ⟨g1, _, g2, ?_⟩
-    intro t w j _ hj
+    intro t w j _ _ hj
     simp only [bytesVal] at hj
     split at hj <;> cases hj
-  | .bytesView p ty v views buf, x, b', hwf, h => by
+  | .bytesView p ty v views buf, x, b', hwf, _, h => by
     simp only [pushScalar] at h
     obtain ⟨bs, _, h2⟩ := (bind_ok _ _ _).1 h
     obtain ⟨v', h3, h4⟩ := (bind_ok _ _ _).1 h2
@@ -499,10 +502,10 @@ theorem pushScalar_appends (ext : Ext) : ∀ (b : B) (x : SVal) (b' : B), WFB b 
     obtain ⟨g1, g2⟩ := view_step hwf true d extra hd
     rw [rowOf_true] at g2
     refine ⟨g1, _, g2, ?_⟩
-    intro t w j _ hj
+    intro t w j _ _ hj
     simp only [bytesVal] at hj
     split at hj <;> cases hj
-  | .fixedSizeBinary p n len v buf cur, x, b', hwf, h => by
+  | .fixedSizeBinary p n len v buf cur, x, b', hwf, _, h => by
     unfold pushScalar at h
     split at h
     · split at h
@@ -514,20 +517,21 @@ theorem pushScalar_appends (ext : Ext) : ∀ (b : B) (x : SVal) (b' : B), WFB b 
         obtain ⟨rfl, _⟩ := setValidity_ok hv h3
         obtain ⟨g1, g2⟩ := fsb_step hwf true bs (by simpa using hn) cur
         rw [rowOf_true] at g2
-        exact ⟨g1, _, g2, by intro t w j hx; cases hx⟩
+        exact ⟨g1, _, g2, by intro t w j _ hx; cases hx⟩
     · simp [notSupported, fail] at h
-  | .dictionary p idx vals index, x, b', hwf, h => by
+  | .dictionary p idx vals index, x, b', hwf, hsafe, h => by
     unfold pushScalar at h
     simp only at h
     have hw' := hwf
     simp only [WFB] at hw'
+    simp only [Safe] at hsafe
     split at h
     · rename_i s _
       split at h
       · rename_i i hi
         obtain ⟨idx', h1, h2⟩ := (bind_ok _ _ _).1 h
         cases h2
-        obtain ⟨hidx, lv, hdec, hint⟩ := pushScalar_appends ext idx _ idx' hw'.1 h1
+        obtain ⟨hidx, lv, hdec, hint⟩ := pushScalar_appends ext idx _ idx' hw'.1 hsafe.2.1 h1
         have hlt : i < index.length := by
           have := SaModel.Props.C11Front.indexOfName_some index s i hi
           rcases Nat.lt_or_ge i index.length with h | h
@@ -536,20 +540,19 @@ theorem pushScalar_appends (ext : Ext) : ∀ (b : B) (x : SVal) (b' : B), WFB b 
         obtain ⟨g1, g2⟩ := dict_append hwf [lv] [] [] hidx hw'.2.1 hdec (by simp) (by simpa using hw'.2.2.1) rfl (by
           intro k' hk' j hj
           simp at hk'; subst hk'
-          have := hint _ _ j rfl hj
+          have := hint _ _ j hsafe.1 rfl hj
           subst this
           simp; omega)
         simp only [List.append_nil] at g1 g2
         refine ⟨g1, _, g2, ?_⟩
-        intro t w j hx
-        subst hx
-        simp at *
+        intro t w j hd
+        simp [B.isDict] at hd
       · rename_i hi
         obtain ⟨vals', h1, h2⟩ := (bind_ok _ _ _).1 h
         obtain ⟨idx', h3, h4⟩ := (bind_ok _ _ _).1 h2
         cases h4
-        obtain ⟨hvals, lw, hdecv, _⟩ := pushScalar_appends ext vals _ vals' hw'.2.1 h1
-        obtain ⟨hidx, lv, hdec, hint⟩ := pushScalar_appends ext idx _ idx' hw'.1 h3
+        obtain ⟨hvals, lw, hdecv, _⟩ := pushScalar_appends ext vals _ vals' hw'.2.1 hsafe.2.2 h1
+        obtain ⟨hidx, lv, hdec, hint⟩ := pushScalar_appends ext idx _ idx' hw'.1 hsafe.2.1 h3
         have hnotin : s ∉ index := by
           intro hmem
           obtain ⟨i, hi', he⟩ := List.getElem_of_mem hmem
@@ -563,18 +566,17 @@ theorem pushScalar_appends (ext : Ext) : ∀ (b : B) (x : SVal) (b' : B), WFB b 
           rfl (by
           intro k' hk' j hj
           simp at hk'; subst hk'
-          have := hint _ _ j rfl hj
+          have := hint _ _ j hsafe.1 rfl hj
           subst this
           simp)
         refine ⟨g1, _, g2, ?_⟩
-        intro t w j hx
-        subst hx
-        simp at *
+        intro t w j hd
+        simp [B.isDict] at hd
     · simp [notSupported, fail] at h
-  | .list _ _ _ _ _ _, x, b', _, h => by simp [pushScalar, notSupported, fail] at h
-  | .fixedSizeList _ _ _ _ _ _ _, x, b', _, h => by simp [pushScalar, notSupported, fail] at h
-  | .map _ _ _ _ _ _, x, b', _, h => by simp [pushScalar, notSupported, fail] at h
-  | .struct _ _ _ _ _ _ _, x, b', _, h => by simp [pushScalar, notSupported, fail] at h
-  | .union _ _ _ _ _, x, b', _, h => by simp [pushScalar, notSupported, fail] at h
+  | .list _ _ _ _ _ _, x, b', _, _, h => by simp [pushScalar, notSupported, fail] at h
+  | .fixedSizeList _ _ _ _ _ _ _, x, b', _, _, h => by simp [pushScalar, notSupported, fail] at h
+  | .map _ _ _ _ _ _, x, b', _, _, h => by simp [pushScalar, notSupported, fail] at h
+  | .struct _ _ _ _ _ _ _, x, b', _, _, h => by simp [pushScalar, notSupported, fail] at h
+  | .union _ _ _ _ _, x, b', _, _, h => by simp [pushScalar, notSupported, fail] at h
 
 end SaModel.Build
